@@ -145,6 +145,30 @@ def run(ck, tier):
                           message='%s calls transaction.%s() directly: that runs outside the transaction lock, so its frame can be written while another '
                                   'thread\'s transaction is between send and receive' % (fn.qn, c.func.attr))
     ck.floor('R3', nx, 1, 'transaction-manager calls in the sync client modules')
+    # R3: connect() is called before the lock is taken (known finding above); on a client that is already connected it must therefore
+    # be a pure test -- no read, write or select on the shared socket
+    nc = 0
+    for k in [cb] + cx.idx.subclasses(cb):
+        fn = k.methods.get('connect')
+        if fn is None:
+            continue
+        ck.saw('functions', fn.qn)
+        for p in cx.enum(fn, k, max_depth=0):
+            from ..common import annotate as _ann
+            _ann(p, heap=False)
+            open_ = any(e.kind == 'cond' and U(e._sub).replace(' ', '') in ('self.socket', 'self.socketisnotNone') and e.a is True for e in p.ev) or \
+                any(e.kind == 'cond' and U(e._sub).replace(' ', '') in ('notself.socket', 'self.socketisNone') and e.a is False for e in p.ev)
+            if not open_:
+                continue
+            nc += 1
+            io = [e for e in p.ev if e.kind == 'call' and ((isinstance(e.node.func, ast.Attribute) and e.node.func.attr in
+                                                           ('recv', 'recvfrom', 'read', 'send', 'sendto', 'write', 'select', 'setblocking', 'close') and
+                                                           ('socket' in U(e.node) or 'select' in U(e.node))) or U(e.node.func) == 'self.close')]
+            ck.ob('R3', fn.qn, 'connect() on an already open socket performs no transport operation', not io,
+                  detail='connect-touches-open-socket %s' % [U(e.node.func)[-20:] for e in io][:2], loc=cx.floc(fn, io[0].node) if io else cx.floc(fn),
+                  message='%s reads from / writes to the already open socket (`%s`) -- connect() runs before the transaction lock is taken, so a second '
+                          'thread can consume the reply another thread is waiting for' % (fn.qn, U(io[0].node)[:50] if io else ''))
+    ck.floor('R3', nc, 2, 'connect() paths on an open socket')
     # R4
     if region is not None:
         todo, seen, bad = ['execute'], set(), []
